@@ -35,7 +35,8 @@ def run(ctx):
         try:
             out = pp(o)
             ans = {"ok": out}
-        except AttributeError:
+        except (AttributeError, AssertionError):
+            # operations without operands (programmatic trees only): `None.split` or the stick-marker assertion
             out = None
             ans = {"err": "AttributeError"}
         except Exception as e:
